@@ -48,6 +48,7 @@ func init() {
 				NeedCounters: []string{"survey-after-a-respondent-was-replaced", "broadcast-complete"}},
 			{Name: fmt.Sprintf("xsurveyor-membership-hist-D%d", d), Mode: "hist", Reset: kit.ResetGlobals, Body: func() { membership(true, d) },
 				NeedCounters: []string{"survey-after-a-respondent-was-replaced", "broadcast-complete"}},
+			{Name: "surveyor-sched-context-closed-with-responses-queued", Mode: "sched", Bound: b, Reset: kit.ResetGlobals, Body: schedClosedCtx},
 			{Name: "xsurveyor-hist", Mode: "hist", Reset: kit.ResetGlobals, Body: func() { rawHist(4) }},
 		}
 	})
@@ -530,6 +531,47 @@ func membership(raw bool, depth int) {
 		}
 	})
 	kit.Must("Close", func() { _ = s.Close() })
+}
+
+// schedClosedCtx: a context has a survey in progress and responses queued (one or two, unread)
+// when it is closed; more responses arrive afterwards.  Recv on the closed context - called
+// before the Close and still waiting, or after it - never delivers a response: it fails (closed
+// or protocol-state error), whichever way the runtime picks among ready alternatives.
+func schedClosedCtx() {
+	w := setup()
+	m := w.ctxs[1]
+	if m.c == nil {
+		m = w.ctxs[0]
+	}
+	w.doSurvey(m)
+	id := make([]byte, 4)
+	binary.BigEndian.PutUint32(id, m.cur)
+	w.pipes[0].Deliver(append(append([]byte{}, id...), "queued-1"...))
+	w.pipes[1].Deliver(append(append([]byte{}, id...), "queued-2"...))
+	kit.Quiesce()
+	if m.c == nil {
+		return
+	}
+	cl := kit.Start("Context.Close", func() (interface{}, error) { return nil, m.c.Close() })
+	r1 := kit.Start("Recv-1", func() (interface{}, error) { b, err := m.c.Recv(); return string(b), err })
+	cl.Wait()
+	w.pipes[0].Deliver(append(append([]byte{}, id...), "late"...))
+	r2 := kit.Start("Recv-2", func() (interface{}, error) { b, err := m.c.Recv(); return string(b), err })
+	r3 := kit.Start("Recv-3", func() (interface{}, error) { b, err := m.c.Recv(); return string(b), err })
+	kit.Quiesce()
+	for i, r := range []*kit.Call{r1, r2, r3} {
+		if !r.Done() {
+			kit.Failf("recv-blocked-closed", "Recv %d on the closed context blocks", i+1)
+		}
+		if i == 0 && r.Err == nil {
+			continue // it ran beside the Close: a response queued before the Close may still come out
+		}
+		if r.Err == nil {
+			kit.Failf("closed-context-delivered", "the context was closed with responses queued; a Recv called after Close had returned delivered %q", r.Val)
+		}
+	}
+	kit.Observe("r1=%s", kit.ErrName(r1.Err))
+	kit.Must("Socket.Close", func() { _ = w.sock.Close() })
 }
 
 // schedExpiry: a response arrives just as the survey expires.
